@@ -58,6 +58,9 @@ type Violation struct {
 	Decisions []int
 	Trace     []string // rendered events
 	Stack     string
+	// Speculative: the solver did not decide the assertion; the model only
+	// satisfies the path condition and counts only if native replay fails.
+	Speculative bool
 }
 
 type Result struct {
@@ -361,6 +364,16 @@ func (p *Path) Assert(c *Term, msg string) {
 	case Unsat:
 		return
 	case Unknown:
+		// The solver could not decide. Try to settle it by witness: a model of
+		// the path condition alone is a concrete input on this path; it is kept
+		// as a speculative candidate that only counts if native replay shows
+		// the assertion failing. The run stays inconclusive otherwise.
+		if v2, m := p.model(nil); v2 == Sat {
+			p.ex.mu.Lock()
+			p.ex.res.Violations = append(p.ex.res.Violations, &Violation{Kind: "assert", Msg: msg, Model: m, VarOrder: append([]string(nil), p.varOrder...),
+				Decisions: append([]int(nil), p.decisions...), Trace: p.renderEvents(), Speculative: true})
+			p.ex.mu.Unlock()
+		}
 		p.ex.mu.Lock()
 		p.ex.res.Inconclusive = append(p.ex.res.Inconclusive, "assertion undecided (solver unknown): "+msg)
 		p.ex.mu.Unlock()
